@@ -2,7 +2,8 @@
    Only statements here; every proof is `exact <lemma>` into Proofs/.
    Model: Model/PyVal.v (values, ==, <, hash, sorted), Model/ToHashable.v (to_hashable), guards and `supported`:
    Model/ToHashableSpec.v. *)
-From Verif Require Import Base.Prelude Model.PyVal Model.ToHashable Model.ToHashableSpec Proofs.ToHashableFacts.
+From Verif Require Import Base.Prelude Model.PyVal Model.ToHashable Model.ToHashableSpec Corr.Run_C15.
+From Verif Require Import Proofs.ToHashableFacts Proofs.C15SpecFacts.
 
 (* ---- key_hashable: to_hashable returns a hashable key.
    Full statement:  forall fp v k, supported v = true -> to_hashable fp v = Ok k -> py_hashable k = true.
@@ -100,3 +101,25 @@ Example C15_key_eq_implies_eq_nontrivial :   (* [1, 2] vs (1, [2]): both support
   supported v = true /\ supported w = true /\ no_pandas v = true /\ no_pandas w = true
   /\ exists k k', to_hashable true v = Ok k /\ to_hashable true w = Ok k' /\ py_eq k k' = false.
 Proof. repeat split; try (vm_compute; reflexivity). do 2 eexists. repeat split; vm_compute; reflexivity. Qed.
+
+(* ---- the executable statement itself (Corr/Run_C15.spec_ok, the oracle that judges the implementation's
+   observations on every run) holds of the model's observation:
+   pairs - for values inside all guards (pair_guard = supported, homogeneous_sortable, no_pandas, no_zero_count,
+   unmasked); the unguarded form is refuted by the witnesses above. *)
+Theorem C15_spec_ok_pair_partial : forall fp v w,
+  pair_guard v = true -> pair_guard w = true -> spec_ok (CPair fp v w) (run (CPair fp v w)) = true.
+Proof. exact spec_ok_pair. Qed.
+Print Assumptions C15_spec_ok_pair_partial.
+
+(* memoize (default SimpleCache): a stored result is returned only for a call whose argument equals (py_same) the
+   argument of the call that produced it - for all call sequences over supported non-pandas arguments
+   (calls that raise are allowed by the statement; they are the subject of the pair theorems). *)
+Theorem C15_memoize_sound_partial : forall args,
+  (forall a, In a args -> supported a = true /\ no_pandas a = true) ->
+  spec_ok (CMemo args) (run (CMemo args)) = true.
+Proof. exact spec_ok_memo. Qed.
+Print Assumptions C15_memoize_sound_partial.
+
+Example C15_spec_ok_nontrivial :
+  pair_guard (PDict [(PInt 1, PList [PSet [PStr (s "b"); PStr (s "a")]]); (PFloat 10, PTuple [])]) = true.
+Proof. vm_compute. reflexivity. Qed.
